@@ -403,6 +403,17 @@ class SymArray:
         raise EngineLimit("all() over a symbolic-length array")
 
     def sum(self, *a, **k):
+        if isinstance(self.n, int):
+            if self.sort == "real":
+                t = z3.RealVal(0)
+                for q in range(self.n):
+                    t = t + self._elem(z3.IntVal(q))
+                return SymReal(t)
+            t = z3.IntVal(0)
+            for q in range(self.n):
+                e = self._elem(z3.IntVal(q))
+                t = t + (z3.If(e, 1, 0) if self.sort == "bool" else e)
+            return concrete(SymInt(t))
         raise EngineLimit("sum() over a symbolic-length array")
 
 
@@ -1077,6 +1088,8 @@ def _m_isin(a, b, *x, **k):
 
 
 def _m_all(a, *x, **k):
+    if isinstance(a, SymArray) and a.sort == "bool" and isinstance(a.n, int):
+        return concrete(SymBool(z3.And(*[a._elem(z3.IntVal(q)) for q in range(a.n)]) if a.n else z3.BoolVal(True)))
     if isinstance(a, SymArray) and a.sort == "bool":
         ii = z3.Int("__qa")
         return concrete(SymBool(z3.ForAll([ii], z3.Implies(z3.And(ii >= 0, ii < iterm(a.n)), a._elem(ii)))))
@@ -1086,6 +1099,8 @@ def _m_all(a, *x, **k):
 
 
 def _m_any(a, *x, **k):
+    if isinstance(a, SymArray) and a.sort == "bool" and isinstance(a.n, int):
+        return concrete(SymBool(z3.Or(*[a._elem(z3.IntVal(q)) for q in range(a.n)]) if a.n else z3.BoolVal(False)))
     if isinstance(a, SymArray) and a.sort == "bool":
         ii = z3.Int("__qe")
         return concrete(SymBool(z3.Exists([ii], z3.And(ii >= 0, ii < iterm(a.n), a._elem(ii)))))
